@@ -55,6 +55,15 @@ def Response.apply (r : Response) : BuildOp → Response
 def Response.build (v : Version) (s : StatusCode) (ops : List BuildOp) : Response :=
   ops.foldl Response.apply (Response.new v s)
 
+/-! the public getters of `Response` -/
+
+/-- `content_length()`: the header value, 0 if absent -/
+def Response.getContentLength (r : Response) : Int := r.contentLength.getD 0
+/-- `body()` -/
+def Response.getBody (r : Response) : Option (List Byte) := r.body
+/-- `allow()` -/
+def Response.getAllow (r : Response) : List Method := r.allow
+
 /-- pieces of `write_allow_header` after "Allow: " -/
 def allowPieces : List Method → List (List Byte)
   | [] => []
